@@ -58,6 +58,9 @@ func (s *Spark) WriteTable(agg *aggregation.TableAggregator, rowSorter, colSorte
 	// Each row...
 	rows := agg.OrderedRows(rowSorter)
 	rowCount := mini(len(rows), s.rowCount)
+	if len(colNames) == 0 { // no column to draw (column limit 0): nothing to show per row
+		rowCount = 0
+	}
 	for i := 0; i < rowCount; i++ {
 		row := rows[i]
 
